@@ -11,6 +11,10 @@ package base58
 //@   ensures (forall k :: 0 <= k && k < len(b) ==> b58[int(b[k])] != 255) ==> len(result) == b58.ones(b, 0, len(b)) + len($loc_tmpval) && big.be($loc_tmpval, len($loc_tmpval)) == b58.valfrom(b, 0, len(b))
 //@   ensures (forall k :: 0 <= k && k < len(b) ==> b58[int(b[k])] != 255) ==> (forall k :: 0 <= k && k < b58.ones(b, 0, len(b)) ==> result[k] == 0) && (forall k :: 0 <= k && k < len($loc_tmpval) ==> result[b58.ones(b, 0, len(b)) + k] == $loc_tmpval[k])
 //@   ensures (forall k :: 0 <= k && k < len(b) ==> b58[int(b[k])] != 255) && len($loc_tmpval) > 0 ==> $loc_tmpval[0] != 0
+//@   ensures (forall k :: 0 <= k && k < len(b) ==> b58[int(b[k])] != 255) ==> len(result) >= b58.ones(b, 0, len(b)) && (forall k :: 0 <= k && k < b58.ones(b, 0, len(b)) ==> result[k] == 0)
+//@   ensures (forall k :: 0 <= k && k < len(b) ==> b58[int(b[k])] != 255) ==> big.beo(result, b58.ones(b, 0, len(b)), len(result) - b58.ones(b, 0, len(b))) == b58.valfrom(b, 0, len(b))
+//@   ensures (forall k :: 0 <= k && k < len(b) ==> b58[int(b[k])] != 255) && len(result) > b58.ones(b, 0, len(b)) ==> result[b58.ones(b, 0, len(b))] != 0
+//@   uses beo_ext, beo_is_be
 //@   modifies nothing
 //@   opaque b58.dig
 //@   revealin assert.1: b58.dig
@@ -62,3 +66,22 @@ package base58
 //@ func base58.CheckDecode
 //@   ensures err == nil ==> freshornil(result)
 //@   modifies nothing
+
+//@ lemmafunc base58.lemmaDecodeEncode
+//@   uses b58_rest_nonneg
+//@   assert after Encode#1: lemma b58_lz_props(b, len(b), len(b))
+//@   assert after Encode#1: lemma b58_dig_chr(b58.rest(big.be(b, len(b)), len($ret) - b58.lz(b, 0, len(b)) - 1) % 58)
+//@   assert after Encode#1: b58.lz(b, 0, len(b)) <= len(b) && 0 <= b58.lz(b, 0, len(b))
+//@   assert after Encode#1: forall k :: 0 <= k && k < len($ret) ==> b58[int($ret[k])] != 255
+//@   assert after Encode#1: forall k :: 0 <= k && k < b58.lz(b, 0, len(b)) ==> $ret[k] == 49
+//@   assert after Encode#1: len($ret) > b58.lz(b, 0, len(b)) ==> $ret[b58.lz(b, 0, len(b))] != 49
+//@   assert after Encode#1: lemma b58_ones_count($ret, b58.lz(b, 0, len(b)), b58.lz(b, 0, len(b)), len($ret))
+//@   assert after Encode#1: b58.ones($ret, 0, len($ret)) == b58.lz(b, 0, len(b))
+//@   assert after Encode#1: lemma be_nonneg(b, len(b))
+//@   assert after Encode#1: lemma b58_val_ones($ret, 0, b58.lz(b, 0, len(b)), len($ret))
+//@   assert after Encode#1: lemma b58_val_suffix($ret, b58.lz(b, 0, len(b)), len($ret), big.be(b, len(b)), len($ret) - b58.lz(b, 0, len(b)))
+//@   assert after Encode#1: b58.valfrom($ret, 0, len($ret)) == big.be(b, len(b))
+//@   assert after Encode#1: lemma be_strip(b, b58.lz(b, 0, len(b)), len(b) - b58.lz(b, 0, len(b)))
+//@   assert after Encode#1: big.be(b, len(b)) == big.beo(b, b58.lz(b, 0, len(b)), len(b) - b58.lz(b, 0, len(b)))
+//@   assert after Decode#1: lemma beo_unique($ret, b58.lz(b, 0, len(b)), len($ret) - b58.lz(b, 0, len(b)), b, b58.lz(b, 0, len(b)), len(b) - b58.lz(b, 0, len(b)))
+//@   assert after Decode#1: len($ret) == len(b) && forall k :: 0 <= k && k < len(b) ==> $ret[k] == b[k]
